@@ -66,7 +66,7 @@ def zero_stays_zero(ctx, oa, fams, bb, kt_l, r1, r2, key_prefix=''):
     rep.floor(r1, 'feasible builder paths at kt_start=+0', n_feasible, 3, where(bb))
 
 
-def run(ctx):
+def _run_rules(ctx):
     rep, f = ctx.rep, ctx.facts
     rep.trust('pk/sym.py, pk/absval.py (IEEE class arithmetic incl. 0*inf=NaN, x/0=inf, min(NaN,1)=1), pk/optmodel.py')
     rep.assume('settings: kt_finish, kt_ratio any finite f64 (what the CLI accepts); scores of valid states finite')
@@ -118,3 +118,10 @@ def run(ctx):
         else:
             rep.fail('R4', 'C06:' + o['rule'] + '/' + o['instance'], o['construct'], o['why'], o['reason'])
     rep.analysed |= sub.rep.analysed
+
+
+def run(ctx):
+    _run_rules(ctx)
+    # R6: setter fidelity of the builder (a zero starting temperature asked for through the builder must be the one the optimiser gets)
+    from .common import builder_setters
+    builder_setters(ctx, 'R6', ['kt_start', 'kt_finish', 'kt_ratio'])
